@@ -57,15 +57,20 @@ var allScalars = []K{kString, kBool, kInt32, kSint32, kUint32, kInt64, kSint64, 
 // well-known / library message types (full name, file to import)
 type wkt struct{ name, file string }
 
+// the two Any types come last: they are supported as single fields only (a list / map of Any is
+// a schema error), see wktField
 var supportedWKT = []wkt{
 	{"google.protobuf.Timestamp", "google/protobuf/timestamp.proto"},
-	{"google.protobuf.Duration", "google/protobuf/duration.proto"},
 	{"j5.types.date.v1.Date", "j5/types/date/v1/date.proto"},
 	{"j5.types.decimal.v1.Decimal", "j5/types/decimal/v1/decimal.proto"},
 	{"j5.types.any.v1.Any", "j5/types/any/v1/any.proto"},
 	{"google.protobuf.Any", "google/protobuf/any.proto"},
 }
+
+// unsupported google types (schema error "unsupported google type"); Duration and Struct were
+// reflected as string / map-of-any until the fixes recorded in known_findings.d/schema.json
 var oddWKT = []wkt{
+	{"google.protobuf.Duration", "google/protobuf/duration.proto"},
 	{"google.protobuf.Struct", "google/protobuf/struct.proto"},
 	{"google.protobuf.Empty", "google/protobuf/empty.proto"},
 	{"google.protobuf.StringValue", "google/protobuf/wrappers.proto"},
@@ -389,7 +394,7 @@ func (g *gen) fillMsg(m *gMsg) {
 			case c < 12:
 				f = g.enumField(m, fname(), num())
 			case c < 14:
-				f = g.wktField(m, fname(), num())
+				f = g.wktField(m, fname(), num(), false)
 			case c < 16:
 				f = g.repeatedField(m, fname(), num())
 			case c < 18:
@@ -596,8 +601,14 @@ func (g *gen) enumField(from *gMsg, name string, num int32) *descriptorpb.FieldD
 	return f
 }
 
-func (g *gen) wktField(from *gMsg, name string, num int32) *descriptorpb.FieldDescriptorProto {
-	w := supportedWKT[g.h.Rng.IntN(len(supportedWKT))]
+// wktField: inCollection = the field becomes a list item / map value, where Any is not supported
+// (chosen only in adversarial sets, rarely).
+func (g *gen) wktField(from *gMsg, name string, num int32, inCollection bool) *descriptorpb.FieldDescriptorProto {
+	n := len(supportedWKT)
+	if inCollection && !(g.adv && g.chance(1, 6)) {
+		n -= 2
+	}
+	w := supportedWKT[g.h.Rng.IntN(n)]
 	if g.adv && g.chance(1, 8) {
 		w = oddWKT[g.h.Rng.IntN(len(oddWKT))]
 	}
@@ -622,7 +633,7 @@ func (g *gen) anyValueField(from *gMsg, name string, num int32) *descriptorpb.Fi
 	case c < 8:
 		f = g.enumField(from, name, num)
 	default:
-		f = g.wktField(from, name, num)
+		f = g.wktField(from, name, num, true)
 	}
 	if f == nil {
 		f = g.scalarField(name, num, kString)
